@@ -136,6 +136,10 @@ struct RefSpline {
     VecL times;       // N
     MatL theta_sigma; // condition-aware scale  |J|^T |G|
     VecL times_sigma;
+    // natural magnitudes (floors for components that vanish by exact cancellation): what a generic entry of that kind is made of.
+    // d c_k / d P ~ 1/T^k,  d c_k / d bc_m ~ T^(m-k),  d c_k / d T ~ max(|c_k|, data/T^k) / T
+    MatL theta_nat;
+    VecL times_nat;
   };
   // total derivative of a scalar with partials (gC: n x dim, gT: N)
   Adjoint adjoint(const MatL& gC, const VecL& gT) const {
@@ -147,6 +151,24 @@ struct RefSpline {
     for (int d = 0; d < dim; ++d) {
       a.times += K[d].transpose() * gC.col(d);
       a.times_sigma += K[d].cwiseAbs().transpose() * gC.col(d).cwiseAbs();
+    }
+    a.theta_nat = MatL::Zero(ntheta(), dim);
+    a.times_nat = VecL::Zero(N);
+    ld Tmin = T.minCoeff();
+    for (int d = 0; d < dim; ++d) {
+      ld dataM = 0;
+      for (int i = 0; i < N; ++i) for (int k = 0; k < nc; ++k) dataM = std::max(dataM, fabsl(C(i * nc + k, d)) * ipow(T(i), k));  // normalised coefficient magnitude (position units)
+      ld natP = 0, natT = 0;
+      for (int i = 0; i < N; ++i)
+        for (int k = 0; k < nc; ++k) {
+          ld g = fabsl(gC(i * nc + k, d));
+          ld tk = ipow(T(i), k);
+          natP += g / ipow(Tmin, k);  // intermediate terms of the elimination are amplified by the shortest neighbour
+          natT += g * std::max(fabsl(C(i * nc + k, d)), dataM / tk) / Tmin;
+        }
+      for (int r = 0; r <= N; ++r) a.theta_nat(r, d) = natP;
+      for (int m = 1; m < s; ++m) { a.theta_nat(N + m, d) = natP * ipow(T(0), m); a.theta_nat(N + (s - 1) + m, d) = natP * ipow(T(N - 1), m); }
+      for (int i = 0; i < N; ++i) a.times_nat(i) += natT;
     }
     return a;
   }
